@@ -38,7 +38,6 @@ EXPECTED_NOT_UNDERSTOOD = {
     "seeded/C12-V/patch.diff": "the last step resolved once from the job-wide symbol table instead of per rank: the trim rule is evaluated for one rank and does not see which table the step name came from",
     "seeded/C16-L/patch.diff": "the per-pattern duration lists replaced by another accumulator: the rule looks for the two list stores and finds neither (look-for rule: not understood)",
     "seeded/C17-V/patch.diff": "summaries memoised per (rank, iteration, device) and renamed in place by a later call: the rule evaluates one call and does not model the cache across calls",
-    "seeded/C18-U/patch.diff": "CompositeFilter applies every member to the ORIGINAL frame and intersects the selections: equal to sequential application only for row-local members; the rule recognises the sequential fold only",
     "seeded/C12-C/patch.diff": "step lookup rewritten with np.searchsorted over unsorted annotations: the evaluator has no model of searchsorted",
     "seeded/C07-E/patch.diff": "computation kernels swept unmerged with running >= 3: a different sweep algorithm; the rule only knows the two-merged-operand template",
     "seeded/C11-F/patch.diff": "cat/name encoded with two pd.factorize calls and an offset: ids no longer read from the table; pd.factorize is not interpreted",
